@@ -5,6 +5,7 @@ pub mod c02;
 pub mod c03;
 pub mod c09;
 pub mod c10;
+pub mod c19;
 
 pub fn lookup(id: &str) -> Option<Box<dyn Property>> {
     Some(match id {
@@ -12,6 +13,7 @@ pub fn lookup(id: &str) -> Option<Box<dyn Property>> {
         "C03" => Box::new(c03::C03),
         "C09" => Box::new(c09::C09),
         "C10" => Box::new(c10::C10),
+        "C19" => Box::new(c19::C19),
         _ => return None,
     })
 }
